@@ -421,7 +421,7 @@ func (w *World) c20Loop() {
 			canRestart := st.restarts < cs.MaxRestarts && (st.inFlight == 0 || (cs.DoubleRestart && st.inFlight == 1)) && len(w.c20Verdicts) > 0
 			canSave := len(savedDecls) < len(cs.Saves) && st.inFlight == 0 && len(w.c20Verdicts) > 0
 			st.mu.Unlock()
-			wts := []int{1000, 0, 0, 0}
+			wts := []int{1000, 0, 0, 0, w.plan.Faults.JumpPerMille}
 			if canRestart {
 				wts[1] = cs.RestartPM
 			}
@@ -492,6 +492,15 @@ func (w *World) c20Loop() {
 			case 3:
 				si := w.st.Draw(len(w.plan.Sources), "grow-src")
 				w.chainGrow(w.plan.Sources[si].Name, 1+w.st.Draw(2, "grow-n"))
+				continue
+			case 4:
+				// the whole process stalls (or the clock jumps) while
+				// whatever is parked stays parked: a restart in flight
+				// must still wait for the tasks it is stopping
+				d := []time.Duration{time.Second, 11 * time.Second, 61 * time.Second}[w.st.Draw(3, "jump")]
+				w.logf("jump %v", d)
+				w.stat("time_jump", 1)
+				time.Sleep(d)
 				continue
 			}
 		}
@@ -926,6 +935,9 @@ func GenC20(seed uint64) *Plan {
 		p.Checks["permute_integrations"] = false
 	}
 	p.Faults = FaultPlan{HealAt: g.between(200, 900), GrowPerMille: 20, MaxGrow: 10}
+	if g.chance(50) {
+		p.Faults.JumpPerMille = 15
+	}
 	p.MaxSteps = 2500
 	return p
 }
